@@ -186,11 +186,29 @@ def _prec_scenarios(n1, n2):
     for lv, m in sorted(_LEVEL_REPS.items()):
         if lv < LEVEL[n1]:
             out += [_chain_scenario([n1, m, n2], vi) for vi in range(len(_CHAIN_VALS))]
+    # a parenthesised group in the middle of a chain is one operand: `a o1 (b m c) o2 d` for an operator m of every level
+    for lv, m in sorted(_LEVEL_REPS.items()):
+        for vi in range(len(_CHAIN_VALS)):
+            out.append(_paren_scenario(n1, m, n2, vi))
     return out
+
+
+def _paren_scenario(o1, m, o2, vi=0):
+    v = _CHAIN_VALS[vi]
+    txt = "%d %s (%d %s %d) %s %d" % (v[0], OPS[o1], v[1], OPS[m], v[2], OPS[o2], v[3])
+    return Scenario("A V\ndeclare V = 0;\n0 (%s)\n" % txt, [("in", "A", 1, 0)], note="P%d %s %s %s" % (vi, o1, m, o2))
 
 
 def _prec_judge(obs, sc):
     vi, *ops = sc.note.split(" ")
+    if vi.startswith("P"):
+        v = _CHAIN_VALS[int(vi[1:])]
+        o1, m, o2 = ops
+        g = _chain_ref([v[1], v[2]], [m])
+        if g is None:
+            return None
+        want = _chain_ref([v[0], g, v[3]], [o1, o2])
+        return expr_judge(want)(obs, sc) if want is not None else None
     return expr_judge(_chain_ref(_CHAIN_VALS[int(vi)][:len(ops) + 1], ops))(obs, sc)
 
 
